@@ -160,12 +160,13 @@ ExportStr ==
         ss == Sites(quote)
         wide == Len(units) <= 1
     IN /\ \A i \in DOMAIN ss :
-            (wide \/ ss[i].site \in {"output", "path-segment", "interpolated", "include-name", "render-name"}) =>
+            (wide \/ (Len(units) = 2 /\ ss[i].site \in {"output", "path-segment", "interpolated", "include-name", "render-name"})
+                  \/ (Len(units) >= 3 /\ ss[i].site = "output")) =>
               Emit(ToJson([focus |-> Focus, kind |-> "str", site |-> ss[i].site, quote |-> quote,
                            src |-> Cps(ss[i].pre) \o lit \o Cps(ss[i].post), value |-> Value(units),
                            before |-> ss[i].before, after |-> ss[i].after, hit |-> ss[i].hit,
                            forms |-> [j \in DOMAIN units |-> units[j].form]]) \o "\n")
-       /\ Emit(ToJson([focus |-> Focus, kind |-> "str", site |-> TStrSite.site, quote |-> quote,
+       /\ Len(units) >= 3 \/ Emit(ToJson([focus |-> Focus, kind |-> "str", site |-> TStrSite.site, quote |-> quote,
                        src |-> Cps(TStrSite.pre) \o Q(quote) \o body \o Cps("${y}") \o Q(quote) \o Cps(TStrSite.post), value |-> Value(units),
                        before |-> TStrSite.before, after |-> TStrSite.after, hit |-> FALSE,
                        forms |-> [j \in DOMAIN units |-> units[j].form]]) \o "\n")
